@@ -577,3 +577,135 @@ impl Engine for ReaderEngine {
         "distinct (read/seek call pattern, fault positions) traces per run"
     }
 }
+
+
+// ------------------------------------------------------------------------------------------------
+// Concurrent purity (supplement to the seeded batch).
+//
+// "Decoding is a pure function of the bytes": also when other threads decode other frames at the
+// same moment. The library has no shared state, so there is no seam a scheduler could own; what
+// can be done is to run the same decodes on several real threads and compare every result with
+// the sequential reference. This part is NOT deterministic simulation: the operating system
+// schedules the threads, a failure is reproduced statistically (replay re-runs the stress until
+// the same mismatch class shows), and a clean run is weaker evidence than a clean batch. It is
+// here because a batch of 16 workers in one process silently assumes it.
+
+pub struct ConcReport {
+    pub violation: Option<simcore::PreFound>,
+    pub coverage: serde_json::Value,
+}
+
+fn conc_pool(seed: u64) -> Vec<Vec<u8>> {
+    let mut rng = Rng::new(seed, 0x19c, 0);
+    let mut v: Vec<Vec<u8>> = vec![];
+    while v.len() < 6 {
+        let f = gen_frame(&mut rng);
+        if f.len() >= 7 {
+            v.push(f);
+        }
+    }
+    // same leading bytes, different tail; same tail, different leading byte
+    let mut a = v[0].clone();
+    let n = a.len();
+    a[n - 1] ^= 0x5a;
+    v.push(a);
+    let mut b = v[1].clone();
+    b[1] ^= 0x81;
+    v.push(b);
+    v
+}
+
+pub fn concurrent_stress(frames: &[Vec<u8>], threads: usize, wall: std::time::Duration) -> (Option<(String, String)>, u64) {
+    use std::sync::atomic::{AtomicBool, AtomicU64, Ordering};
+    let dec = |b: &[u8], via_reader: bool| -> String {
+        let r = catch_unwind(AssertUnwindSafe(|| if via_reader { Frame::from_reader(io::Cursor::new(b)) } else { Frame::from_bytes(b) }));
+        match r {
+            Ok(r) => render(&r),
+            Err(_) => {
+                let _ = take_panic();
+                "Panic".to_string()
+            }
+        }
+    };
+    let refs: Vec<String> = frames.iter().map(|f| dec(f, false)).collect();
+    let stop = AtomicBool::new(false);
+    let total = AtomicU64::new(0);
+    let found: std::sync::Mutex<Option<(String, String)>> = std::sync::Mutex::new(None);
+    let t0 = std::time::Instant::now();
+    std::thread::scope(|sc| {
+        for t in 0..threads {
+            let (refs, stop, total, found, dec) = (&refs, &stop, &total, &found, &dec);
+            sc.spawn(move || {
+                let mut i = 0usize;
+                let mut done = 0u64;
+                while !stop.load(Ordering::Relaxed) {
+                    let k = (t + i) % frames.len();
+                    let got = dec(&frames[k], (i / frames.len()) % 2 == 1);
+                    done += 1;
+                    if got != refs[k] && !refs[k].starts_with("Panic") {
+                        let mut g = found.lock().unwrap();
+                        if g.is_none() {
+                            *g = Some((wire::hex(&frames[k]), format!("thread {t}, its decode #{i}: bytes {} decode to\n  {}\nwhile {} other thread(s) decode other frames, but to\n  {}\non their own", wire::hex(&frames[k]), got, threads - 1, refs[k])));
+                        }
+                        stop.store(true, Ordering::Relaxed);
+                    }
+                    i += 1;
+                    if i % 64 == 0 && t0.elapsed() > wall {
+                        break;
+                    }
+                }
+                total.fetch_add(done, Ordering::Relaxed);
+            });
+        }
+    });
+    let f = found.into_inner().unwrap();
+    (f, total.load(Ordering::Relaxed))
+}
+
+pub fn concurrent_purity(seed: u64, tier: &str, threads: usize) -> ConcReport {
+    let wall_s: f64 = std::env::var("VERIF_CONC_WALL_S").ok().and_then(|s| s.parse().ok()).unwrap_or(if tier == "thorough" { 40.0 } else { 4.0 });
+    let threads = threads.clamp(2, 8);
+    let frames = conc_pool(seed);
+    let t0 = std::time::Instant::now();
+    let (found, decodes) = concurrent_stress(&frames, threads, std::time::Duration::from_secs_f64(wall_s));
+    let hexes: Vec<String> = frames.iter().map(|f| wire::hex(f)).collect();
+    let coverage = json!({
+        "what": "real threads decoding a pool of frames at the same time, every result compared with the sequential reference; NOT deterministic (the operating system schedules the threads): supplementary stress, failures are reproduced statistically",
+        "threads": threads, "frames": hexes, "decodes": decodes, "wall_s": t0.elapsed().as_secs_f64(), "mismatch": found.is_some(),
+    });
+    println!("concurrent purity: {decodes} decodes on {threads} threads in {:.1}s, {}", t0.elapsed().as_secs_f64(), if found.is_some() { "MISMATCH" } else { "all equal to the sequential reference" });
+    let violation = found.map(|(_, detail)| simcore::PreFound {
+        engine: "Rc".into(),
+        signature: "C19:result-depends-on-concurrent-decodes".into(),
+        detail,
+        scenario: json!({"frames": hexes, "threads": threads}),
+    });
+    ConcReport { violation, coverage }
+}
+
+/// `replay` of a concurrent-purity finding: the stress is repeated on the recorded frames until the
+/// mismatch shows again (bounded); a thread race cannot be replayed exactly.
+pub fn replay_concurrent(rf: &simcore::ReplayFile, path: &std::path::Path) -> i32 {
+    let frames: Vec<Vec<u8>> = rf.scenario["frames"].as_array().map(|a| a.iter().filter_map(|x| x.as_str()).map(wire::unhex).collect()).unwrap_or_default();
+    let threads = rf.scenario["threads"].as_u64().unwrap_or(4) as usize;
+    if frames.is_empty() {
+        simcore::harness_error("replay file without frames");
+    }
+    let (found, decodes) = concurrent_stress(&frames, threads, std::time::Duration::from_secs(60));
+    println!("trace_hash=");
+    match found {
+        Some((_, detail)) => {
+            println!("replayed signature={}", rf.signature);
+            for l in detail.lines() {
+                println!("  | {l}");
+            }
+            println!("(a thread race: reproduced statistically after {decodes} decodes, not step by step)");
+            println!("VIOLATION property={} replay={}", rf.property, path.display());
+            1
+        }
+        None => {
+            println!("replay of {}: no mismatch in {decodes} concurrent decodes", path.display());
+            0
+        }
+    }
+}
